@@ -151,6 +151,42 @@ def check_c02(recs):
     return v, stats
 
 
+def check_c02b(recs):
+    """two independently locked pipelines used at the same time: each sink gets exactly its producers' messages, once, in each
+    producer's order, with the message text inside the formatted line"""
+    v = []
+    sent = {}
+    for k, a, b, c, d, s in recs:
+        if k == "C":
+            sent[a] = c          # 0 = through the installed Logger (sink S), 1 = through the bare pipeline (sink U)
+    got = {"S": [], "U": []}
+    for k, a, b, c, d, s in recs:
+        if k in got:
+            got[k].append((a, unhex(s)))
+    for tag, side in (("S", 0), ("U", 1)):
+        want = {i for i, t in sent.items() if t == side}
+        ids = [a for a, _ in got[tag]]
+        if len(ids) != len(set(ids)):
+            v.append(("C02:two-pipelines:delivered-twice:sink=%s" % tag, "duplicate deliveries"))
+        if set(ids) != want:
+            v.append(("C02:two-pipelines:lost-or-misrouted:sink=%s" % tag, "%d expected, %d delivered (missing %d, foreign %d)"
+                      % (len(want), len(set(ids)), len(want - set(ids)), len(set(ids) - want))))
+        lastp = {}
+        for a, text in got[tag]:
+            p, i = divmod(a, 1000000)
+            if p in lastp and lastp[p] > i:
+                v.append(("C02:two-pipelines:producer-order:sink=%s" % tag, "producer %d: message %d after %d" % (p, i, lastp[p])))
+                break
+            lastp[p] = i
+            if ("msg %d" % a) not in text:
+                v.append(("C02:two-pipelines:formatted-text:sink=%s" % tag, "line %r does not carry message %d" % (text[:100], a)))
+                break
+    order = [divmod(a, 1000000)[0] for k, a, b, c, d, s in recs if k in ("S", "U")]
+    switches = sum(1 for x, y in zip(order, order[1:]) if x != y)
+    return v, {"messages": len(sent), "switches": switches, "handovers": len({(x, y) for x, y in zip(order, order[1:]) if x != y}),
+               "fingerprint": hashlib.sha1(bytes(x % 251 for x in order)).hexdigest()[:12], "max_run": 0}
+
+
 # ------------------------------------------------------------------------------------------- C03
 
 FIELDS = ["type", "message", "file", "line", "function", "category", "time", "steadyTime", "threadId", "qthreadptr", "formatted",
@@ -167,16 +203,22 @@ def _eq_field(name, a, b):
 def check_c03(recs, target):
     v = []
     T, P, D, H = {}, {}, [], []
+    foreign = 0
     tJ = tZ = None
     for k, a, b, c, d, s in recs:
         if k == "T":
-            T[a] = (b, s.split(" "))
+            if a not in T:          # with two own-thread stages the first hand-off carries the message as the producer built it
+                T[a] = (b, s.split(" "))
         elif k == "P":
             P[a] = (b, c, d, s.split(" "))
         elif k == "D":
+            if a < 0:
+                foreign += 1      # not sent by the harness (Qt's own warnings also travel through the installed handler)
+                continue
             D.append((a, b, c, d, s.split(" ")))
         elif k == "H":
-            H.append((a, b, c))
+            if a >= 0:
+                H.append((a, b, c))
         elif k == "J":
             tJ = a
         elif k == "Z":
@@ -259,6 +301,6 @@ def check_c03(recs, target):
     order = [divmod(x[0], 1000000)[0] for x in Ds]
     switches = sum(1 for x, y in zip(order, order[1:]) if x != y)
     stats = {"messages": len(ids), "delivered": len(D), "twin_compared": twin_used, "max_backlog": mx, "switches": switches,
-             "ordered_pairs": constrained, "gated": sum(1 for a in got if a % 13 == 0),
+             "ordered_pairs": constrained, "gated": sum(1 for a in got if a % 13 == 0), "foreign_messages": foreign,
              "fingerprint": hashlib.sha1(bytes(x % 251 for x in order)).hexdigest()[:12]}
     return v, stats
